@@ -168,6 +168,12 @@ impl Prop for P {
                     2 => st.reset_as(FullReset(fw)),
                     _ => st.reset(fw),
                 }
+                {
+                    let mut f = InflateState::new_boxed(fw);
+                    let got = (st.decompressor().adler32(), st.decompressor().adler32_header(), st.last_status());
+                    let want = (f.decompressor().adler32(), f.decompressor().adler32_header(), f.last_status());
+                    vensure!(got == want, format!("c18:inflate-reset-policy{policy}-getters-differ"), "right after reset policy {policy}: (decompressor().adler32(), adler32_header(), last_status()) = {got:?}; a new state reports {want:?}");
+                }
                 let w_reused = inflate_calls(&mut st, &dw, w_calls)?;
                 let mut fresh = InflateState::new_boxed(fw);
                 let w_fresh = inflate_calls(&mut fresh, &dw, w_calls)?;
@@ -197,6 +203,11 @@ impl Prop for P {
                 let hm = if *h_ring { BufMode::Ring { bits: 15, start: 0, fill_seed: 1 } } else { BufMode::Flat { cap: 70_000 } };
                 let rh = drive(&mut d, &dh, &DriveOpts { flags: zflags(zh), mode: hm, sched: h_sched, canary: false, max_calls: Some(*h_calls as u64 + 1), announce: true, flat_start: 0, probe_full_ring: false }, plain_hook)?;
                 d.init();
+                {
+                    // observable state right after init(), before the next decode call
+                    let f = DecompressorOxide::new();
+                    vensure!(d.adler32() == f.adler32() && d.adler32_header() == f.adler32_header(), "c18:decoder-init-getters-differ", "right after init(): adler32() = {:?}, adler32_header() = {:?}; a new decoder reports {:?} / {:?}", d.adler32(), d.adler32_header(), f.adler32(), f.adler32_header());
+                }
                 let wm = match w_ring {
                     None => BufMode::Flat { cap: vw.out.len() + 300 },
                     Some((b, s, f)) => BufMode::Ring { bits: *b, start: *s, fill_seed: *f },
